@@ -326,7 +326,7 @@ def check_snapshots(res, pagesize):
     snaps = res.get("snaps") or []
     if not snaps:
         return 0
-    rc, out = sh([MONITOR, "inv", str(pagesize)] + [s[1] for s in snaps], timeout=300)
+    rc, out = sh([MONITOR, "inv", str(pagesize)] + [s[1] for s in snaps], timeout=3000)
     lines = [l for l in out.split("\n") if l.strip()]
     byfile = {}
     for l in lines:
